@@ -20,6 +20,7 @@ RULE = ('operation sequences over one list and one dict held in a persistent nam
         'distinct = distinct (start state, operation sequence).')
 RULE += ' Sequences of the non-inserting dict lookups also run on a host defaultdict; half of the cases use a long-lived caching parser.'
 RULE += ' Keys include numbers whose text form carries an exponent (0.0000001, 10 ** 30); dicts built by a literal are read back with the same key (get({k: 5}, k), keys({k: 5})).'
+RULE += ' Keys also come from the host as values: a str-Enum member and a str subclass with a text form of their own, a binary float, a wide int, a decimal in exponent form.'
 ASSUMPTIONS = ['R4: list index = truncation toward zero of a decimal, negative from the end; dict key = str(key) on literal, write, read, compound write, get and del',
                'for operations the statement does not pin (del of a missing key/index, write or pop(i) at an out-of-range index) the model accepts "raises any Exception or does nothing", '
                'but requires the container unchanged; remove and `in` use the raw key (no cast)',
